@@ -91,7 +91,7 @@ CHECKS = {
         text="Dict.tla states the dictionary: load-ordered definitions (built-ins, then user files), later wins per name and per display, parent-first "
              "transitive resolution, accepted iff every entry is named, no dangling attribute/extends, acyclic. Every enumerated user dictionary (pool of "
              "entries x attribute-file variants; all one-entry and - thorough - all two-entry dictionaries incl. every cycle shape) is loaded by the real "
-             "binary and each user name/display played; built-ins: attr list = gen attr -d 20, English names, every chord by name and display.",
+             "binary and each user name/display played; built-ins: attr list = gen attr, English names, every chord by name and display.",
         note=TB + "; combinations where a user override would change a built-in that inherits from it are not generated (the property is silent)",
         technique="TLA+ dictionary model (Dict.tla) + TLC validation of real CLI runs over an enumerated dictionary space"),
     "C04": dict(
@@ -138,7 +138,7 @@ CHECKS = {
         text="IterVisitor.tla (PlusCal) models the only concurrency in crd - producer goroutine, bounded channel, consumer with early exit and drain - and "
              "TLC explores every interleaving (trees of 6 nodes, capacity 1..2, stop at any node or never): document order, exact prefix, no leaked "
              "producer, termination. Every data-producing command is run k times (8 quick / 40 thorough) across GOMAXPROCS 1/2/4/16, --debug, stdin/-/FILE, "
-             "stdout/-o incl. a named pipe, /dev/null, /dev/full, the input file itself (thorough: -race build too); TLC requires one (success, sha-256) per "
+             "stdout/-o onto a fresh and onto an existing longer file (thorough: -race build too); TLC requires one (success, sha-256) per "
              "request class, and --debug runs equal to plain runs. Interleavings written by TLC's simulator for the model (free, and with the producer "
              "filling the channel of 100 first) are replayed on the real iterator through a gate hook, the abstract state compared after every action; a "
              "probe checks that a send on a full channel does not go through.",
